@@ -1,4 +1,4 @@
-#!/usr/bin/env python3
+#!/venv/bin/python
 """Record the AST digests of every function in py_trees/*.py of /repo's working tree as the state the model was validated
 against (harness/source_pins.json). Run after a fix: commit to /repo and a clean run of all checks."""
 import glob
